@@ -6,6 +6,8 @@ use crate::rt::{Ctx, Json};
 pub mod c02;
 pub mod c03;
 pub mod c04;
+pub mod c05;
+pub mod c06;
 pub mod c16;
 
 macro_rules! dispatch {
@@ -14,6 +16,8 @@ macro_rules! dispatch {
             "C02" => c02::$f($ctx $(, $arg)*),
             "C03" => c03::$f($ctx $(, $arg)*),
             "C04" => c04::$f($ctx $(, $arg)*),
+            "C05" => c05::$f($ctx $(, $arg)*),
+            "C06" => c06::$f($ctx $(, $arg)*),
             "C16" => c16::$f($ctx $(, $arg)*),
             other => {
                 let msg = format!("no monitor for property {}", other);
